@@ -244,13 +244,33 @@ func init() {
 		lat := func(v sem.Ver, err error) Ev { return Ev{"ok": err == nil, "v": verEv(v)} }
 		e["hv"], e["ht"], e["ha"] = []int{0, 0}, []int{0, 0}, []int{0, 0}
 		e["lv"], e["lt"], e["la"] = lat(sem.Ver{}, errNone), lat(sem.Ver{}, errNone), lat(sem.Ver{}, errNone)
+		// the helpers are generic over ~string | ~[]byte: plain types, named types, and []byte
+		// arguments living in two buffers the caller reuses from call to call
+		mode := (len(a) + len(b)) % 3
 		e["panic"] = try(func() {
-			e["hv"] = helperInt(sem.CompareVersion[string, string](string(a), string(b)))
-			e["ht"] = helperInt(sem.CompareTag(a, string(b)))
-			e["ha"] = helperInt(sem.Compare(string(a), b))
-			e["lv"] = lat(sem.LatestVersion(a, b))
-			e["lt"] = lat(sem.LatestTag(string(a), string(b)))
-			e["la"] = lat(sem.Latest(a, string(b)))
+			switch mode {
+			case 1:
+				e["hv"] = helperInt(sem.CompareVersion[myStr, myBytes](string(a), string(b)))
+				e["ht"] = helperInt(sem.CompareTag(myBytes(a), myStr(b)))
+				e["ha"] = helperInt(sem.Compare(myStr(a), myStr(b)))
+				e["lv"] = lat(sem.LatestVersion(myBytes(a), myBytes(b)))
+				e["lt"] = lat(sem.LatestTag(myStr(a), string(b)))
+				e["la"] = lat(sem.Latest(a, myStr(b)))
+			case 2:
+				e["hv"] = helperInt(sem.CompareVersion[[]byte, []byte](string(a), string(b)))
+				e["ht"] = helperInt(sem.CompareTag(reused(a), string(b)))
+				e["ha"] = helperInt(sem.Compare(reused(a), reused2(b)))
+				e["lv"] = lat(sem.LatestVersion(reused(a), reused2(b)))
+				e["lt"] = lat(sem.LatestTag(reused(a), reused2(b)))
+				e["la"] = lat(sem.Latest(reused(a), string(b)))
+			default:
+				e["hv"] = helperInt(sem.CompareVersion[string, string](string(a), string(b)))
+				e["ht"] = helperInt(sem.CompareTag(a, string(b)))
+				e["ha"] = helperInt(sem.Compare(string(a), b))
+				e["lv"] = lat(sem.LatestVersion(a, b))
+				e["lt"] = lat(sem.LatestTag(string(a), string(b)))
+				e["la"] = lat(sem.Latest(a, string(b)))
+			}
 		})
 		return e
 	}
